@@ -68,7 +68,16 @@ func (e Error) Error() string {
 	)
 }
 
+// maxErrors is the number of errors recorded for one source text.
+const maxErrors = 100
+
 func (p *parser) error(place interface{}, msg string, msgValues ...interface{}) {
+	if len(p.errors) >= maxErrors {
+		// Every error carries a position that is computed by scanning the source;
+		// text with thousands of errors (n duplicate labels give n*n/2) must not
+		// take minutes to reject.
+		return
+	}
 	var idx file.Idx
 	switch place := place.(type) {
 	case int:
